@@ -897,6 +897,7 @@ class definition(slots_getstate_setstate):
                 continue
             substitution_proxy = variable_substitution_proxy(word)
             fragments = substitution_proxy.fragments
+            textual = []
             for i_fragment, fragment in enumerate(fragments):
                 if not fragment.is_variable:
                     fragment.result = tokenizer.word(
@@ -919,19 +920,7 @@ class definition(slots_getstate_setstate):
                 if variable_words is None:
                     if diff_mode:
                         env_var = "$" + fragment.value
-                        # keep the parentheses where the bare form reads differently:
-                        # a dotted name, or identifier characters following
-                        following = ""
-                        if (
-                            i_fragment + 1 < len(fragments)
-                            and not fragments[i_fragment + 1].is_variable
-                        ):
-                            following = fragments[i_fragment + 1].value[:1]
-                        if "." in fragment.value or (
-                            following != "."
-                            and following in standard_identifier_continuation_characters
-                        ):
-                            env_var = "$(" + fragment.value + ")"
+                        textual.append(i_fragment)
                     else:
                         env_var = os.environ.get(fragment.value, None)
                     if env_var is not None:
@@ -953,6 +942,21 @@ class definition(slots_getstate_setstate):
                         value=" ".join([word.value for word in variable_words]),
                         quote_token='"',
                     )
+            for i_fragment in textual:
+                # keep the parentheses where the bare form reads differently:
+                # a dotted name, or identifier characters following
+                fragment = fragments[i_fragment]
+                following = "".join(
+                    [later.result.value for later in fragments[i_fragment + 1 :]]
+                )[:1]
+                if "." in fragment.value or (
+                    following != "."
+                    and following in standard_identifier_continuation_characters
+                ):
+                    result = fragment.result
+                    if not substitution_proxy.force_string:
+                        result = result[0]
+                    result.value = "$(" + fragment.value + ")"
             new_words.extend(substitution_proxy.get_new_words())
         return self.customized_copy(words=new_words)
 
